@@ -46,6 +46,9 @@ def one(d):
                 first = lines[i - 1].strip()[:300]
                 break
         meta['checks'] = {prop: {'exit': rc, 'violations': len(viol), 'first': first, 'wall_s': round(time.time() - t0, 1)}}
+        if rc not in (0, 1):
+            meta['checks'][prop]['tail'] = o[-1500:]
+            print(sid, 'exit', rc, o[-1500:], flush=True)
         meta['detected_by'] = [prop] if rc == 1 and viol else []
         meta['rechecked'] = time.strftime('%Y-%m-%d %H:%M')
         json.dump(meta, open(os.path.join(d, 'meta.json'), 'w'), indent=1)
